@@ -372,7 +372,7 @@ LAM = lattice.LAMBDAS
 
 
 def _pts(n, seed, quick):
-    P = lattice.klein_points(n, 4 if quick else 8, seed)
+    P = lattice.klein_points(n, 8 if quick else 12, seed)
     return P
 
 
@@ -396,7 +396,7 @@ def rescale_cases(dims, seed, quick):
         np_ = len(P)
         idx = list(range(np_))
         sub = idx if not quick else idx[:8]
-        for i in sub:
+        for i in idx:                       # single-point functions: every lattice point, in both tiers
             for l in LAM[1:]:
                 yield {"f": "coords", "n": n, "pts": [i], "lam": [l]}
                 if n >= 2:
@@ -556,7 +556,7 @@ def run(ctx):
     ctx.product("packaging", "checks.c12:case_packaging", list(packaging_cases()),
                 domains={"entries": len(_entries()), "scalar packagings": SCALAR_PACKS + INT_PACKS, "array packagings": ARRAY_PACKS + ARRAY_INT_PACKS}, chunk=16)
     ctx.product("doc-snippets", "checks.c12:case_snippet", [{"i": i} for i in range(7)], domains={"snippets": 7}, chunk=1)
-    dims = (2, 3) if q else (1, 2, 3, 4)
+    dims = (2, 3, 4) if q else (1, 2, 3, 4, 5)
     cases = []
     for c in rescale_cases(dims, ctx.seed, q):
         c["seed"] = ctx.seed
